@@ -30,6 +30,7 @@ Inductive ucase :=
 | CNeg (a : expr) (c : call)
 | CCmp (op : cmpop) (a b : expr) (impl : option bool) (samples : list (list (N * Q)))
 | CVec (es : list expr) (c : call)                           (* ExpressionVector: c_obs is an OArr *)
+| CVecPartial (es : list expr) (s : list (N * expr)) (c : call)   (* ExpressionVector.evaluate_symbolic(s), then evaluate *)
 | CCrash.
 
 Definition eps : Q := 1 # 1073741824.   (* 2^-30, relative to max(1,|v|) *)
@@ -99,6 +100,22 @@ Definition corr_arr (e : expr) (r : aenv) (n : nat) (tol : bool) (o : obs) : boo
 Definition bind2 (a b : result Q) (f : Q -> Q -> result Q) : result Q :=
   bind a (fun x => bind b (fun y => f x y)).
 
+(* an ExpressionVector evaluates item by item: the result array holds the value of every item; an exception for the
+   whole vector is justified only by an item without a value *)
+Definition vec_agree (ev : expr -> result Q) (es : list expr) (c : call) : bool :=
+  match c_obs c with
+  | OArr l => Nat.eqb (length l) (length es) &&
+              forallb (fun p => match snd p with
+                                | Some q => agree (c_tol c) (ev (fst p)) (OVal q)
+                                | None => agree (c_tol c) (ev (fst p)) ONan
+                                end) (combine es l)
+  | o => existsb (fun e => agree (c_tol c) (ev e) o) es
+  end.
+
+(* every substituted term has a value in the scope (else evaluating at once is not defined: nothing is required) *)
+Definition subst_terms_defined (r : env) (s : list (N * expr)) : bool :=
+  forallb (fun p => match evaluate r (snd p) with Ok _ => true | Err _ => false end) s.
+
 Definition ucheck_corr (c : ucase) : bool :=
   match c with
   | CEval e ivars calls =>
@@ -114,15 +131,8 @@ Definition ucheck_corr (c : ucase) : bool :=
       | Some r => match impl with Some r' => Bool.eqb r r' | None => false end
       | None => true
       end
-  | CVec es c =>
-      match c_obs c with
-      | OArr l => Nat.eqb (length l) (length es) &&
-                  forallb (fun p => match snd p with
-                                    | Some q => agree (c_tol c) (evaluate (env_of c) (fst p)) (OVal q)
-                                    | None => agree (c_tol c) (evaluate (env_of c) (fst p)) ONan
-                                    end) (combine es l)
-      | o => existsb (fun e => agree (c_tol c) (evaluate (env_of c) e) o) es
-      end
+  | CVec es c => vec_agree (evaluate (env_of c)) es c
+  | CVecPartial es s c => vec_agree (fun e => evaluate (env_of c) (subst s e)) es c
   | CCrash => false
   end.
 
@@ -135,7 +145,7 @@ Definition ucheck_spec (c : ucase) : bool :=
   | CPartial e s c =>
       (* evaluating at once, in the scope extended by the values of the substituted terms
          (nothing is required when a substituted term has no value in that scope) *)
-      if forallb (fun p => match evaluate (env_of c) (snd p) with Ok _ => true | Err _ => false end) s
+      if subst_terms_defined (env_of c) s
       then agree (c_tol c) (evaluate (ext (env_of c) s) e) (c_obs c)
       else true
   | CBuild o a b c => agree (c_tol c) (bind2 (evaluate (env_of c) a) (evaluate (env_of c) b) (bop_val o)) (c_obs c)
@@ -150,15 +160,9 @@ Definition ucheck_spec (c : ucase) : bool :=
                             | _, _ => true
                             end) samples
       end
-  | CVec es c =>
-      match c_obs c with
-      | OArr l => Nat.eqb (length l) (length es) &&
-                  forallb (fun p => match snd p with
-                                    | Some q => agree (c_tol c) (evaluate (env_of c) (fst p)) (OVal q)
-                                    | None => agree (c_tol c) (evaluate (env_of c) (fst p)) ONan
-                                    end) (combine es l)
-      | o => existsb (fun e => agree (c_tol c) (evaluate (env_of c) e) o) es
-      end
+  | CVec es c => vec_agree (evaluate (env_of c)) es c
+  | CVecPartial es s c =>
+      if subst_terms_defined (env_of c) s then vec_agree (evaluate (ext (env_of c) s)) es c else true
   | CCrash => false
   end.
 
